@@ -42,14 +42,15 @@ type bounds struct {
 	sigmaLine int // seeds up to this size (and above sigmaAll): sigma-replace at line starts
 	byteOps   int // seeds up to this size: delete byte i, duplicate byte i
 	nullify   int // text seeds up to this size: replace each value token / bracket group by null
+	lineCut   int // text seeds up to this size: truncate line i at every column / drop its first k bytes (lines <= 200 B)
 	binFF     bool
 }
 
 func boundsFor(tier string) bounds {
 	if tier == "thorough" {
-		return bounds{truncAll: 64 << 10, lineOps: 64 << 10, sigmaAll: 32 << 10, sigmaLine: 64 << 10, byteOps: 16 << 10, nullify: 64 << 10, binFF: true}
+		return bounds{truncAll: 64 << 10, lineOps: 64 << 10, sigmaAll: 32 << 10, sigmaLine: 64 << 10, byteOps: 16 << 10, nullify: 64 << 10, lineCut: 32 << 10, binFF: true}
 	}
-	return bounds{truncAll: 2 << 10, lineOps: 64 << 10, sigmaAll: 256, sigmaLine: 2 << 10, byteOps: 256, nullify: 2 << 10, binFF: false}
+	return bounds{truncAll: 2 << 10, lineOps: 64 << 10, sigmaAll: 256, sigmaLine: 2 << 10, byteOps: 256, nullify: 2 << 10, lineCut: 8 << 10, binFF: false}
 }
 
 func isBinary(seed []byte) bool {
@@ -100,6 +101,16 @@ func (d mutDesc) String() string {
 		return fmt.Sprintf("set[%d]=%#02x", d.A, d.B)
 	case "nullify":
 		return fmt.Sprintf("null<-[%d:%d]", d.A, d.B)
+	case "cut-line-tail":
+		return fmt.Sprintf("line %d truncated at column %d (rest of the file kept)", d.A, d.B)
+	case "cut-line-head":
+		return fmt.Sprintf("line %d loses its first %d bytes", d.A, d.B)
+	case "repack":
+		return "re-packed unchanged"
+	case "drop-entry", "duplicate-entry", "empty-entry":
+		return fmt.Sprintf("%s %d", d.Op, d.A)
+	case "replay":
+		return "replay"
 	case "delbyte":
 		return fmt.Sprintf("delete-byte[%d]", d.A)
 	case "dupbyte":
@@ -219,6 +230,37 @@ func enumerate(seed []byte, tier string, from int, fn func(seq int, d mutDesc, d
 				return buf
 			}) {
 				return seq
+			}
+		}
+	}
+	if n <= b.lineCut && !isBinary(seed) {
+		for i := 0; i < nl; i++ {
+			// line body without its terminator
+			from, to := st[i], st[i+1]
+			if to > from && seed[to-1] == '\n' {
+				to--
+			}
+			if to > from && seed[to-1] == '\r' {
+				to--
+			}
+			if to-from > 200 {
+				continue
+			}
+			for k := from; k < to; k++ { // truncate line i at column k-from, keep the rest of the file
+				if !emit(mutDesc{Op: "cut-line-tail", A: i, B: k - from}, func() []byte {
+					buf = append(append(buf[:0], seed[:k]...), seed[to:]...)
+					return buf
+				}) {
+					return seq
+				}
+			}
+			for k := from + 1; k < to; k++ { // drop the first k-from bytes of line i
+				if !emit(mutDesc{Op: "cut-line-head", A: i, B: k - from}, func() []byte {
+					buf = append(append(buf[:0], seed[:from]...), seed[k:]...)
+					return buf
+				}) {
+					return seq
+				}
 			}
 		}
 	}
